@@ -63,7 +63,7 @@ def arg_sets(row, quick, r):
             if k == "stdn":
                 params = range(16)
             elif k == "dapc":
-                params = range(256) if not quick else sorted({0, 1, 127, 128, 254, 255, r.getrandbits(8)})
+                params = range(256)
             for p in params:
                 if k == "std":
                     yield {"addr": d}, (lambda cls, A, d=d: cls(mk_addr(A, d)))
@@ -90,13 +90,13 @@ def arg_sets(row, quick, r):
         for d in DEV:
             yield {"addr": d}, (lambda cls, A, d=d: cls(mk_addr(A, d)))
     elif k == "inst":
-        devs = DEV if not quick else DEV[::7] + DEV[-2:]
+        devs = DEV if not quick else DEV[::3] + DEV[-2:]
         for d in devs:
             for i in INST:
                 yield {"addr": d, "inst": i}, (lambda cls, A, d=d, i=i: cls(mk_addr(A, d), mk_addr(A, i)))
     elif k == "dsp2":
         for a in range(256):
-            bs = range(256) if not quick else sorted({0, 1, 0x80, 0xFF, a, r.getrandbits(8)})
+            bs = range(256) if not quick else sorted({0, 1, 0x80, 0xFF, a} | {r.getrandbits(8) for _ in range(24)})
             for b in bs:
                 yield {"param_1": a, "param_2": b}, (lambda cls, A, a=a, b=b: cls(a, b))
 
